@@ -589,6 +589,106 @@ example : (pollUntil frameDec 4 {} [.chunk [0x40, 0x41], .pend, .chunk [0x41]]).
 
 end live
 
+/-! ## The signal only at the very first bytes (finding D-19b) -/
+
+section signalFirst
+open H3.FS
+
+/-- **The WebTransport signal is honoured only at the first bytes of the stream — partial.**
+    draft-ietf-webtrans-http3 §4.2 allows the 0x41 signal only as the VERY FIRST bytes of a
+    bidirectional stream.  The FULL statement would be: whenever re-polling `poll_next` from the
+    initial state over a script `sc` answers the WebTransport frame of session `x` (`pollUntil
+    frameDec (sc.length + 1) {} sc = (.frame (.webTransport x), s, rest)`, or, more generally, any
+    configuration `Reach frameDec sc [Tok.frame (.webTransport x)] s rest`), the stream's first
+    bytes are a 0x41 header for `x`: `∃ n, Frame.decode (evBytes sc) = .frame (.webTransport x) n`.
+    That is FALSE for the code (finding D-19b, `C19_signal_only_at_first_bytes_full_fails`): the
+    frame layer skips frames of unknown type and hands out `Frame::WebTransportStream` also behind
+    them.  Proved here: the full conclusion under the one extra hypothesis `hfirst` that the first
+    frame of the stream is not one the decoder skips as unknown (stated on the whole byte string
+    the script carries; by the stability law of the decoder this is the same as saying it of any
+    prefix long enough to be decoded).  Every other way to reach the token is excluded: a first
+    frame of a known type would have been handed out first (the token list is exactly `[frame
+    (webTransport x)]`), an error ends the stream. -/
+theorem C19_signal_only_at_first_bytes_partial (sc : List Ev) (hsc : ScriptOK sc)
+    {x : Nat} {s : FS.St} {rest : List Ev}
+    (h : Reach frameDec sc [FS.Tok.frame (.webTransport x)] s rest)
+    (hfirst : ∀ n, H3.Frame.decode (evBytes sc) ≠ .unknown n) :
+    ∃ n, H3.Frame.decode (evBytes sc) = .frame (.webTransport x) n := by
+  obtain ⟨taken, hsc0, hI⟩ := H3.Props.C02.C02_chunking_independent frameDec frameDec_laws sc hsc h
+  obtain ⟨consumed, hseen, hrun⟩ := hI.split
+  have hall : evBytes sc = consumed ++ (s.flat ++ evBytes rest) := by
+    rw [hsc0, evBytes_append, hseen, List.append_assoc]
+  have hun : ∀ n, frameDec.dec consumed ≠ .unknown n := by
+    intro n hd
+    have hst := frameDec_laws.stable consumed (s.flat ++ evBytes rest) (by rw [hd]; rfl)
+    rw [← hall, hd] at hst
+    apply hfirst n
+    change liftRes (H3.Frame.decode (evBytes sc)) = .unknown n at hst
+    cases hd' : H3.Frame.decode (evBytes sc) <;> rw [hd'] at hst <;> simp only [liftRes] at hst <;> cases hst
+    rfl
+  obtain ⟨n, hd⟩ := first_frame_of_run frameDec frameDec_laws consumed (.webTransport x) _ hrun hun
+  have hst := frameDec_laws.stable consumed (s.flat ++ evBytes rest) (by rw [hd]; rfl)
+  rw [← hall, hd] at hst
+  change liftRes (H3.Frame.decode (evBytes sc)) = .frame (.webTransport x) n at hst
+  refine ⟨n, ?_⟩
+  cases hd' : H3.Frame.decode (evBytes sc) <;> rw [hd'] at hst <;> simp only [liftRes] at hst <;> cases hst
+  rfl
+
+/-- the partial theorem for the re-polling reader: if `poll_next`, polled again after every
+    `Pending`, ends with the WebTransport frame of session `x`, and the first frame of the stream is
+    not skipped as unknown, the stream starts with a WebTransport header for `x` -/
+theorem C19_signal_only_at_first_bytes_polled_partial (sc : List Ev) (hsc : ScriptOK sc) (fuel : Nat)
+    {x : Nat} {s : FS.St} {rest : List Ev}
+    (h : pollUntil frameDec fuel {} sc = (.frame (.webTransport x), s, rest))
+    (hfirst : ∀ n, H3.Frame.decode (evBytes sc) ≠ .unknown n) :
+    ∃ n, H3.Frame.decode (evBytes sc) = .frame (.webTransport x) n :=
+  C19_signal_only_at_first_bytes_partial sc hsc
+    (pollUntil_reach frameDec sc fuel [] {} sc Reach.init _ _ _ h rfl) hfirst
+
+/-- **The full statement fails (finding D-19b).**  Witness: the stream `21 00 | 40 41 00 | aa bb` + FIN —
+    a GREASE frame (type 0x21) of length 0, then the 0x41 signal for session 0.  One `poll_next`
+    (so also the re-polling reader) answers `frame (webTransport 0)` and enters raw mode with `aa bb`
+    buffered, although the decoder reads the first bytes of the stream as an unknown frame of 2
+    bytes, not as a WebTransport header; hence the full statement (for `Reach`, of which the
+    `pollUntil` form is an instance by `pollUntil_reach`) is refuted. -/
+theorem C19_signal_only_at_first_bytes_full_fails :
+    pollUntil frameDec 3 {} [.chunk [0x21, 0x00, 0x40, 0x41, 0x00, 0xaa, 0xbb], .fin] =
+      (.frame (.webTransport 0), { buf := [[0xaa, 0xbb]], remaining := USIZE_MAX }, [.fin]) ∧
+    H3.Frame.decode [0x21, 0x00, 0x40, 0x41, 0x00, 0xaa, 0xbb] = .unknown 2 ∧
+    ¬ (∀ (sc : List Ev) (x : Nat) (s : FS.St) (rest : List Ev), ScriptOK sc →
+        Reach frameDec sc [FS.Tok.frame (.webTransport x)] s rest →
+        ∃ n, H3.Frame.decode (evBytes sc) = .frame (.webTransport x) n) := by
+  have hp : pollNext frameDec {} [.chunk [0x21, 0x00, 0x40, 0x41, 0x00, 0xaa, 0xbb], .fin] =
+      (.frame (.webTransport 0), { buf := [[0xaa, 0xbb]], remaining := USIZE_MAX }, [.fin]) := by
+    decide +kernel
+  have hd : H3.Frame.decode [0x21, 0x00, 0x40, 0x41, 0x00, 0xaa, 0xbb] = .unknown 2 := by decide +kernel
+  refine ⟨by decide +kernel, hd, fun hall => ?_⟩
+  obtain ⟨n, hn⟩ := hall [.chunk [0x21, 0x00, 0x40, 0x41, 0x00, 0xaa, 0xbb], .fin] 0 _ _
+    (by intro b hb; simp at hb; subst hb; simp) (Reach.next Reach.init hp rfl)
+  have he : evBytes [.chunk [0x21, 0x00, 0x40, 0x41, 0x00, 0xaa, 0xbb], .fin] =
+      [0x21, 0x00, 0x40, 0x41, 0x00, 0xaa, 0xbb] := by decide
+  rw [he, hd] at hn
+  cases hn
+
+/-! non-vacuity of the partial theorem: `cut₂` (`40 41 41 00 | aa bb cc`, cut inside both varints):
+    the configuration reached after three polls; the first frame is not unknown; the conclusion -/
+example : H3.Frame.decode (evBytes cut₂) = .frame (.webTransport 256) 4 := by decide +kernel
+example : ∃ n, H3.Frame.decode (evBytes cut₂) = .frame (.webTransport 256) n :=
+  C19_signal_only_at_first_bytes_partial cut₂
+    (by intro b hb; simp [cut₂] at hb; rcases hb with rfl | rfl | rfl | rfl <;> simp) reach_cut₂
+    (by intro n; rw [show H3.Frame.decode (evBytes cut₂) = .frame (.webTransport 256) 4 by decide +kernel]
+        intro h; cases h)
+
+example : ∃ n, H3.Frame.decode (evBytes cut₂) = .frame (.webTransport 256) n :=
+  C19_signal_only_at_first_bytes_polled_partial cut₂
+    (by intro b hb; simp [cut₂] at hb; rcases hb with rfl | rfl | rfl | rfl <;> simp) 8
+    (by decide +kernel : pollUntil frameDec 8 {} cut₂ =
+      (.frame (.webTransport 256), { buf := [[0xaa]], remaining := USIZE_MAX }, [.chunk [0xbb, 0xcc], .fin]))
+    (by intro n; rw [show H3.Frame.decode (evBytes cut₂) = .frame (.webTransport 256) 4 by decide +kernel]
+        intro h; cases h)
+
+end signalFirst
+
 section limitedUni
 open H3.UniAccept H3.Lemmas.C04
 open H3.FS (ScriptOK)
